@@ -180,6 +180,44 @@ def replay_fn(ctx, prop, fname, st):
     return bad
 
 
+# ill-typed programs (two types that differ in a leaf meet): they fail without annotations and must fail under every annotation scheme as well -
+# annotations, in particular equal type names on both sides, do not make different types equal
+PNN, PII = P(NAT, NAT), P(INT, INT)
+ILL = [((S(PNN, p(i(1), i(2))), S(PII, p(i(1), i(2)))), (('COMPARE',),)),
+       ((S(PII, p(i(1), i(2))), S(LIST(PNN), lst())), (('CONS',),)),
+       ((S(PNN, p(i(1), i(2))), S(LAM(PII, INT), ('lam', (('CAR',),)))), (('EXEC',),)),
+       ((S(OPT(PNN), some(p(i(1), i(2)))), S(OPT(PII), none)), (('COMPARE',),))]
+ILL_MC = """---- MODULE C17IllMC ----
+EXTENDS MichSem, TLC
+Cases == %s
+ASSUME \\A c \\in Cases : IsIll(TyS(c[2], [k \\in DOMAIN c[1] |-> c[1][k][1]]))
+VARIABLE x
+Init == x = 0
+Next == x' = x /\\ FALSE
+Spec == Init /\\ [][Next]_x
+====
+"""
+
+
+def ill_typed(ctx):
+    from ..tlaparse import to_tla
+    r = ctx.tlc('C17IllMC', 'SPECIFICATION Spec\n', gen={'C17IllMC': ILL_MC % to_tla(set(ILL))}, name='C17IllMC', timeout=300, coverage=False)
+    if r.violation or 'Assumption' in r.output and 'is false' in r.output:
+        raise Exception('the model does not find the negative programs ill-typed:\n' + r.output[-600:])
+    for init, prog in ILL:
+        base = vmreplay.run_impl(init, {}, prog)
+        if base[0] != 'err':
+            ctx.skip('ill-typed program accepted without annotations (C02\'s business)')
+            continue
+        for scheme in SCHEMES:
+            got = vmreplay.run_impl(init, {}, prog, annotate=lambda tj: annotate_type(tj, scheme), instr_annotate=lambda ij: annotate_instr(ij, scheme))
+            ctx.count(('ill', init, prog, scheme), nontrivial=True)
+            ctx.replayed += 1
+            if got[0] != 'err':
+                ctx.mismatch('C17:annotated:%s:ill-typed-program-accepted:%s' % (scheme, prog[-1][0]), 'program %s on %s is ill-typed (the operand types differ) and is refused without annotations, but runs under annotation scheme %s: %s' % (
+                    json.dumps(to_json(prog)), json.dumps(to_json(init)), scheme, got[:2]), {'family': 'ill', 'init': to_json(init), 'hist': to_json(prog), 'scheme': scheme})
+
+
 def run(ctx):
     ctx.rule = ('every program of the comb / adt / option-list / typed-collection families (see C01, C02) is run once without annotations and once per annotation scheme '
                 '(field annotations everywhere, type annotations everywhere, both, field / type annotation only on inner pairs of right combs) applied to the types of the '
@@ -193,12 +231,18 @@ def run(ctx):
             fams[name]['depth'] = 2
     C01.ASPECTS['C17'] = {'status', 'value', 'type', 'failwith-value'}
     C01.run_families(ctx, 'C17', 'annot', fams, replay_fn=replay_fn)
+    ill_typed(ctx)
     ctx.exhaustive = True
 
 
 def replay(ctx, rep):
     c = rep['case']
     tup = lambda x: tuple(tup(y) for y in x) if isinstance(x, list) else x
+    if c.get('family') == 'ill':
+        ill_typed(ctx)
+        for m in ctx.mismatches:
+            print('REPRODUCED', m.signature, m.detail[:800])
+        return 1 if ctx.mismatches else 0
     st = {'init': tup(c['init']), 'env': {k: tup(v) for k, v in (c['env'] or {}).items()}, 'hist': tup(c['hist']), 'status': c['status'],
           'stack': tup(c['stack']), 'failv': tup(c['failv'])}
     cls = replay_fn(ctx, 'C17', c.get('family', '?'), st)
